@@ -7,6 +7,36 @@ from sa.loader import AnalysisError, norm_text
 VIOLATION_KINDS = ("const", "operator", "binding", "structure")
 
 
+def closed_form(project, chk, rule, qualnames, what):
+    """The published conversions are closed-form expressions: a `while` loop (an iteration whose trip count depends on the
+    data: bisection, gamut mapping, refinement) in one of them, or in a helper they reach inside the conversion modules, is a
+    different algorithm -- it cannot agree with the formula bit for bit -- and is reported before the formula audit is tried."""
+    import ast
+    from sa.resolve import Scope, own_nodes
+    seen = set()
+    stack = list(qualnames)
+    n = 0
+    while stack:
+        q = stack.pop()
+        if q in seen or q not in project.funcs:
+            continue
+        seen.add(q)
+        fi = project.funcs[q]
+        if not fi.module.name.startswith("cm_colors.core.conv") and not fi.module.name.startswith("cm_colors.core.color_metrics") and not fi.module.name.startswith("cm_colors.core.contrast"):
+            continue
+        n += 1
+        sc = Scope(project, fi)
+        for x in own_nodes(fi.node):
+            if isinstance(x, ast.While):
+                chk.fail(rule, fi.short, norm_text(x.test)[:80], project.loc(fi.module, x), f"{what}: {fi.name} iterates (`while {norm_text(x.test)[:60]}`) where the definition is a closed-form expression: "
+                                                                                              "a search / refinement replaces the published formula on part of the input space")
+            if isinstance(x, ast.Call):
+                cq = sc.resolve_call(x)
+                if cq in project.funcs:
+                    stack.append(cq)
+    chk.ok(rule, f"conversions ({n} functions)", f"{what}: no data-dependent iteration in the {n} functions of the conversion call closure", "statement census (while loops) over the call closure inside the conversion modules") if not any(f.rule == rule and "iterates" in f.message for f in chk.findings) else None
+
+
 def audit(project, chk, rule, qualname, ref_src, entry, policy, what, inline=True, exclude=(), call_map=None, code_expr=None, pick=None, alternatives=None):
     """Compare the closed form of a package function with the reference formula; record verdicts.
     Returns the number of constants / nodes compared (for floors)."""
